@@ -44,21 +44,44 @@ def main():
 
     prop = worker.load_prop(pid)
     total = args.examples if args.examples is not None else prop.BUDGET[tier]
-    nshards = args.shards or int(os.environ.get("VERIF_SHARDS", os.cpu_count() or 4))
+    width = args.shards or int(os.environ.get("VERIF_SHARDS", os.cpu_count() or 4))
+    # thorough tier: several rounds of fresh worker processes (bounds the number of XLA executables
+    # a single process accumulates, and every (round, shard) draws its own structure pool)
+    rounds = int(os.environ.get("VERIF_ROUNDS", getattr(prop, "ROUNDS", {}).get(tier, 1 if tier == "quick" else 8)))
+    nshards = width * rounds
     nshards = max(1, min(nshards, total)) if total > 0 else 1
     per = [total // nshards + (1 if i < total % nshards else 0) for i in range(nshards)]
 
     t0 = time.time()
     tmp = tempfile.mkdtemp(prefix=f"verif_{pid}_")
-    procs = []
-    for i in range(nshards):
-        out = os.path.join(tmp, f"shard{i}.json")
-        cmd = [sys.executable, "-m", "vlib.worker", pid, tier, str(seed), str(i)]
-        cmd += [str(nshards), str(per[i]), out]
-        log = open(os.path.join(tmp, f"shard{i}.log"), "w")
-        env = dict(os.environ)
-        env.update(getattr(prop, "shard_env", lambda i, n: {})(i, nshards))
-        procs.append((subprocess.Popen(cmd, stdout=log, stderr=log, cwd=VERIF, env=env), out, log))
+    deadline_each = float(os.environ.get("VERIF_SHARD_TIMEOUT", 900 if tier == "quick" else 3 * 3600))
+    pending = list(range(nshards))
+    running = {}
+    finished = []
+    while pending or running:
+        while pending and len(running) < width:
+            i = pending.pop(0)
+            out = os.path.join(tmp, f"shard{i}.json")
+            cmd = [sys.executable, "-m", "vlib.worker", pid, tier, str(seed), str(i)]
+            cmd += [str(nshards), str(per[i]), out]
+            log = open(os.path.join(tmp, f"shard{i}.log"), "w")
+            env = dict(os.environ)
+            env.update(getattr(prop, "shard_env", lambda i, n: {})(i, nshards))
+            running[i] = (subprocess.Popen(cmd, stdout=log, stderr=log, cwd=VERIF, env=env), out, log, time.time())
+        time.sleep(0.2)
+        for i in list(running):
+            p, out, log, started = running[i]
+            rc = p.poll()
+            if rc is None and time.time() - started > deadline_each:
+                p.kill()
+                rc = p.wait()
+                with open(out, "w") as f:
+                    json.dump({"harness_error": "shard timed out (inconclusive, not a violation)"}, f)
+            if rc is not None:
+                log.close()
+                finished.append((i, rc, out))
+                del running[i]
+    finished.sort()
 
     merged = {
         "evaluations": 0,
@@ -70,16 +93,7 @@ def main():
         "metrics": {},
     }
     harness_errors = []
-    deadline = t0 + float(os.environ.get("VERIF_SHARD_TIMEOUT", 900 if tier == "quick" else 6 * 3600))
-    for i, (p, out, log) in enumerate(procs):
-        try:
-            rc = p.wait(timeout=max(1.0, deadline - time.time()))
-        except subprocess.TimeoutExpired:
-            p.kill()
-            rc = p.wait()
-            with open(out, "w") as f:
-                json.dump({"harness_error": "shard timed out (inconclusive, not a violation)"}, f)
-        log.close()
+    for i, rc, out in finished:
         try:
             with open(out) as f:
                 st = json.load(f)
